@@ -290,7 +290,7 @@ def run(ctx):
     acts = ["UriMC!SetScheme", "UriMC!SetUser", "UriMC!SetHost", "UriMC!SetPort", "UriMC!SetPath", "UriMC!SetQuery", "UriMC!DoParse",
             "UriMC!DoBuild", "UriMC!DoQuery", "UriMC!Extend", "UriMC!DoEnc", "UriMC!DoDec", "UriMC!DoDecText"]
     ctx.mc(SPEC_DIR, "UriMC", "MC_thorough.cfg" if thorough else "MC.cfg", required_actions=acts, timeout=3000, xmx="8g")
-    ctx.mc(SPEC_DIR, "UriMC", "MC_query.cfg", required_actions=acts, timeout=3000, xmx="8g")
+    ctx.mc(SPEC_DIR, "UriMC", "MC_query_thorough.cfg" if thorough else "MC_query.cfg", required_actions=acts, timeout=3000, xmx="8g")
     # 2. component combinations: TLC-enumerated (small set exhaustively, large set by simulation) + seeded random
     rng = random.Random(ctx.seed)
     small = [from_tlc(s) for s in bfs_scripts(ctx, "Gen_small.cfg")]
@@ -298,7 +298,7 @@ def run(ctx):
         sim = [from_tlc(s) for s in bfs_scripts(ctx, "Gen.cfg")]
         qsim = [from_tlc(s) for s in bfs_scripts(ctx, "Gen_query.cfg")]
     else:
-        sim, _ = tlc.gen_scripts(SPEC_DIR, "UriMC", "Gen.cfg", ctx.outdir, num=4000, depth=7, seed=ctx.seed, workers=4, timeout=900)
+        sim, _ = tlc.gen_scripts(SPEC_DIR, "UriMC", "Gen.cfg", ctx.outdir, num=2500, depth=7, seed=ctx.seed, workers=4, timeout=900)
         sim = [from_tlc(s) for s in sim]
         qsim, _ = tlc.gen_scripts(SPEC_DIR, "UriMC", "Gen_query.cfg", ctx.outdir, num=600, depth=7, seed=ctx.seed, workers=4,
                                   timeout=900)
